@@ -200,6 +200,13 @@ pub fn run(case: &Case) -> Outcome {
         desc.push("user-thread".to_string());
     }
     let states = States::install(desc, opname);
+    // cfg[1]: that many trivial coroutines are spawned and joined first, so that the global
+    // run queues (64-slot block queues) stand at a generated position when the program
+    // starts - its bursts of spawns then straddle a block boundary now and then
+    for _ in 0..case.cfg(1).clamp(0, 200) {
+        let h = unsafe { may::coroutine::spawn(|| {}) };
+        let _ = h.join();
+    }
     let w = Arc::new(World {
         case: case.clone(),
         execs: (0..n).map(|_| AtomicUsize::new(0)).collect(),
@@ -284,9 +291,9 @@ pub fn strategy(g: &GenCfg) -> BoxedStrategy<Case> {
         2 => Just(Op(LOCK, 0, 0)),
     ];
     let co = (proptest::collection::vec(step, 0..5), prop_oneof![4 => (0u32..1000).prop_map(|v| Op(RET, v, 0)), 1 => Just(Op(PANIC, 0, 0))], 0u32..4, prop_oneof![4 => Just(W_JOIN), 2 => Just(W_WAIT), 2 => Just(W_POLL), 1 => Just(W_CANCEL)], any::<u16>(), any::<u16>());
-    (proptest::collection::vec(co, 1..=16), 0i64..=2)
-        .prop_flat_map(move |(cos, nthreads)| (Just(cos), Just(nthreads), gen::config(&g2), gen::schedule(&g2, false)))
-        .prop_map(|(cos, nthreads, (workers, pool, feat), sched)| {
+    (proptest::collection::vec(co, 1..=16), 0i64..=2, prop_oneof![2 => Just(0i64), 2 => 0i64..200, 2 => (1i64..4, 0i64..10).prop_map(|(b, o)| b * 64 - 10 + o)])
+        .prop_flat_map(move |(cos, nthreads, offset)| (Just(cos), Just((nthreads, offset)), gen::config(&g2), gen::schedule(&g2, false)))
+        .prop_map(|(cos, (nthreads, offset), (workers, pool, feat), sched)| {
             let n = cos.len();
             let mut actors: Vec<Actor> = vec![];
             let mut depth = vec![0usize; n];
@@ -319,7 +326,7 @@ pub fn strategy(g: &GenCfg) -> BoxedStrategy<Case> {
                 let pos = 1 + ((seed as usize * (len - 1)) >> 16);
                 actors[p].ops.insert(pos.min(len - 1), Op(SPAWN, c as u32, 0));
             }
-            Case { fam: "spawn".into(), workers, pool, feat, cfg: vec![nthreads], actors, sched, weak: 0 }
+            Case { fam: "spawn".into(), workers, pool, feat, cfg: vec![nthreads, offset], actors, sched, weak: 0 }
         })
         .boxed()
 }
